@@ -350,7 +350,7 @@ pub fn property() -> Property {
             Box::new(GenPart {
                 name: "random-inputs",
                 rule: "random PDU/total length/protocol type/label",
-                cases: (1_200_000, 3_000_000),
+                cases: (1_200_000, 15_000_000),
                 fuzz_decode: None,
                 strategy: rand_strategy,
                 check: check_rand,
@@ -359,7 +359,7 @@ pub fn property() -> Property {
             Box::new(GenPart {
                 name: "end-to-end",
                 rule: "fragmented transfer, trailer and calculator arguments",
-                cases: (160_000, 400_000),
+                cases: (160_000, 2_000_000),
                 fuzz_decode: None,
                 strategy: e2e_strategy,
                 check: check_e2e,
